@@ -2,7 +2,7 @@ import sys, json
 for l in sys.stdin:
     if l.startswith('RESULT '):
         d = json.loads(l[7:])
-        print("evaluations", d['evaluations'], "violations", len(d['violations']), "seconds", d['seconds'])
+        print("evaluations", d["evaluations"], "violations", len(d["violations"]), "seconds", d["seconds"], "samples", str(d.get("samples"))[:300])
         for v in [x for x in d["violations"] if "[reduce_to_site" not in x["clause"]][:2] + [x for x in d["violations"] if "[reduce_to_site" in x["clause"]][:1]:
             print("  CLAUSE:", v['clause']); print("  INPUT:", str(v['input'])[:500]); print("  OBS:", str(v['observed'])[:300]); print("  EXP:", str(v['expected'])[:300])
     elif l.strip():
